@@ -6,7 +6,7 @@ same contract clause natively. Prints one JSON line: {"confirmed": bool, "observ
 (the caller decides), unless the replay file itself is unusable (exit 3).
 """
 from __future__ import annotations
-import importlib, importlib.util, json, os, sys, threading, traceback, copy, types, enum, io, contextlib
+import importlib, importlib.util, json, os, sys, threading, traceback, copy, types, enum, io, contextlib, inspect
 from fractions import Fraction
 
 HERE = os.path.dirname(os.path.abspath(__file__))
@@ -202,6 +202,67 @@ def set_path(root_objs, path, value):
         object.__setattr__(o, parts[-1], value)
 
 
+def default_for(ann, depth=0):
+    """a benign value for a field annotation (string or object)"""
+    import dataclasses, datetime as _dt, enum, typing
+    a = ann if isinstance(ann, str) else getattr(ann, "__name__", str(ann))
+    a = a.replace("typing.", "")
+    if a.startswith("Optional[") or a.endswith("| None") or a == "None" or a.startswith("Callable") or "Callable[" in a:
+        return None
+    for pre, val in (("int", 0), ("float", 0.0), ("str", ""), ("bool", False)):
+        if a == pre:
+            return val
+    if a.startswith(("list", "List", "Sequence")):
+        return []
+    if a.startswith(("dict", "Dict", "Mapping")):
+        return {}
+    if a.startswith(("set", "Set", "frozenset")):
+        return set()
+    if a.startswith(("tuple", "Tuple")):
+        inner = a[a.index("[") + 1:-1] if "[" in a else ""
+        return tuple(default_for(x.strip(), depth + 1) for x in inner.split(",") if x.strip() and x.strip() != "...")
+    if a == "datetime":
+        return _dt.datetime(2024, 1, 1)
+    if a == "timedelta":
+        return _dt.timedelta(0)
+    if a in ("Any", "object"):
+        return None
+    try:
+        C = find_class(a.split("[")[0].strip("'\""))
+    except Exception:
+        return None
+    if isinstance(C, type) and issubclass(C, enum.Enum):
+        return list(C)[0]
+    return auto_construct(C.__name__, depth + 1) if depth < 3 else None
+
+
+def auto_construct(cn, depth=0):
+    import dataclasses
+    C = find_class(cn)
+    with contextlib.redirect_stdout(io.StringIO()):
+        if dataclasses.is_dataclass(C):
+            kw = {}
+            for f in dataclasses.fields(C):
+                if f.init and f.default is dataclasses.MISSING and f.default_factory is dataclasses.MISSING:
+                    kw[f.name] = default_for(f.type, depth)
+            try:
+                return C(**kw)
+            except Exception:
+                pass
+        try:
+            return C()
+        except Exception:
+            pass
+        try:
+            sig = inspect.signature(C.__init__)
+            kw = {pn: default_for(pp.annotation if pp.annotation is not inspect.Parameter.empty else "Any", depth)
+                  for pn, pp in list(sig.parameters.items())[1:]
+                  if pp.default is inspect.Parameter.empty and pp.kind in (pp.POSITIONAL_OR_KEYWORD, pp.KEYWORD_ONLY)}
+            return C(**kw)
+        except Exception:
+            return object.__new__(C)
+
+
 def build(rep, spec_mod):
     from pyvc import spec as S
     model, types_ = rep["model"], rep.get("types", {})
@@ -228,7 +289,8 @@ def build(rep, spec_mod):
         cn = types_[n][1]
         ctor = S.REG.constructors.get(cn)
         if ctor is None:
-            raise RuntimeError(f"no construct() hint for {cn}")
+            roots[n] = auto_construct(cn)       # no construct() hint: a benign instance built from the class's own field declarations
+            continue
         C = find_class(cn, ctor["module"])
         kwargs = dict(ctor["init"])
         for k, v in list(kwargs.items()):
@@ -242,6 +304,7 @@ def build(rep, spec_mod):
             roots[n] = C(**kwargs)
     # nested objects first (shorter paths first), then scalars
     names = sorted(model, key=lambda s: (s.count("."), s))
+    tuples = {}
     nones = {n[:-5] for n in names if n.endswith("#none") and model[n] is True}
     for n in names:
         if "@" in n or "!" in n and not n.startswith(tuple(roots)):
@@ -260,6 +323,13 @@ def build(rep, spec_mod):
             continue
         if any(base == x or base.startswith(x + ".") for x in nones):
             continue
+        if n.endswith("#members"):
+            if root in roots and "." in base and isinstance(model[n], list):
+                try:
+                    set_path(roots, base, set(model[n]))
+                except (AttributeError, TypeError):
+                    pass
+            continue
         if n.endswith("#held") or n.endswith("#arr") or n.endswith("#dom") or n.endswith("#size"):
             continue
         if n.endswith("#len"):
@@ -268,8 +338,16 @@ def build(rep, spec_mod):
                     set_path(roots, base, [None] * min(int(model[n]), 5000))
                 except AttributeError:
                     pass
+            elif "." not in base and "[" not in base and ty and ty[0] == "list" and int(model[n]) == 0:
+                args[base] = []            # an empty list parameter (non-empty symbolic lists cannot be realised by this builder)
             continue
         if "[" in base:
+            # components of a tuple-typed field / parameter:  X[0], X[1] ... -> X = (v0, v1, ...)
+            import re as _re
+            m_ = _re.fullmatch(r"(.+)\[(\d+)\]", base)
+            tt = types_.get(m_.group(1)) if m_ else None
+            if m_ and tt and tt[0] == "tuple" and not n.endswith(("#len", "#none")):
+                tuples.setdefault(m_.group(1), {})[int(m_.group(2))] = (model[n], tt[1 + int(m_.group(2))] if 1 + int(m_.group(2)) < len(tt) else None)
             continue
         if ty is None:
             continue
@@ -288,6 +366,23 @@ def build(rep, spec_mod):
                 pass
         elif "." not in base:
             args[base] = v
+    for base_, comps in tuples.items():
+        tt = types_.get(base_)
+        vals = []
+        for i_ in range(len(tt) - 1):
+            mv, ct = comps.get(i_, (None, tt[1 + i_]))
+            try:
+                vals.append(conv(mv, ct) if mv is not None else default_for({"int": "int", "real": "float", "str": "str", "bool": "bool"}.get(ct[0], "Any")))
+            except Exception:
+                vals.append(None)
+        root_ = base_.split(".")[0]
+        if root_ in roots and "." in base_:
+            try:
+                set_path(roots, base_, tuple(vals))
+            except AttributeError:
+                pass
+        elif "." not in base_:
+            args[base_] = tuple(vals)
     # callbacks and locks
     for n, ty in types_.items():
         if not ty:
@@ -353,15 +448,42 @@ def run_once(rep, path):
         cmod = importlib.util.module_from_spec(specm)
         specm.loader.exec_module(cmod)
         hook = getattr(cmod, "native_replay", None)
-        if hook is not None:
-            r = hook(rep)
-            if r is not None:
-                return r
-        mod, cls, mname, roots, args, log = build(rep, cmod)
     except Exception as e:
         out["observed"] = "replay construction failed: " + "".join(traceback.format_exception_only(type(e), e)).strip()
         out["error"] = True
         return out
+    # 1. the counter-model itself: build the pre-state on the real classes, run the real function, evaluate the failed clause natively
+    g = dict(out)
+    if rep.get("kind") != "scan":
+        try:
+            g = generic_replay(rep, path, cmod, dict(out))
+        except Exception as e:      # noqa
+            g["observed"] = "replay construction failed: " + "".join(traceback.format_exception_only(type(e), e)).strip()
+            g["error"] = True
+    if g.get("confirmed") or hook is None:
+        return g
+    # 2. the contract file's witness finder (bounded search on the real code)
+    try:
+        r = hook(rep)
+    except Exception as e:      # noqa
+        tb = traceback.extract_tb(e.__traceback__)
+        in_repo = bool(tb) and "/operon_ai/" in tb[-1].filename and "/verif/" not in tb[-1].filename
+        allowed = rep.get("raises_allowed") or []
+        bad_exc = not any(type(e).__name__ == a or a in [c.__name__ for c in type(e).__mro__] for a in allowed)
+        if in_repo and rep.get("kind") == "raises" and bad_exc:
+            return {"confirmed": True, "replay": path, "found_by": "witness search on the real code",
+                    "observed": f"the code under test raised {type(e).__name__}: {e} ({tb[-1].name}, line {tb[-1].lineno}) during the witness search"}
+        r = {"confirmed": False, "replay": path, "error": True,
+             "observed": "witness search failed: " + "".join(traceback.format_exception_only(type(e), e)).strip()}
+    if r is None:
+        return g
+    if not r.get("confirmed") and g.get("observed") and not g.get("error"):
+        r = dict(r, observed=f"{r.get('observed')} || model replay: {g.get('observed')}")
+    return r
+
+
+def generic_replay(rep, path, cmod, out):
+    mod, cls, mname, roots, args, log = build(rep, cmod)
     olds = {id(o): snapshot(o) for o in roots.values()}
     old_args = {k: snapshot(v) for k, v in args.items()}
 
@@ -459,6 +581,12 @@ def run_once(rep, path):
     except Exception as e:
         out["observed"] = "clause evaluation failed natively: " + "".join(traceback.format_exception_only(type(e), e)).strip()
         out["error"] = True
+        if rep.get("is_init") and isinstance(e, AttributeError) and env.get("self") is not None and \
+                f"'{type(env['self']).__name__}' object has no attribute" in str(e):
+            # the constructor returned without binding a field the clause speaks about: the clause cannot hold
+            out["confirmed"] = True
+            out["error"] = False
+            out["observed"] = f"the constructor left a field unbound: {e}"
     return out
 
 
@@ -601,8 +729,8 @@ def xcheck_file(path):
         out["checked"] += 1
         bad = []
         exc = res.get("exc")
-        if isinstance(exc, ReentryDetected):
-            out["checked"] -= 1
+        if isinstance(exc, ReentryDetected) or (isinstance(exc, TypeError) and "required positional argument" in str(exc)):
+            out["checked"] -= 1          # the state builder could not supply a parameter: not a verdict about the encoder
             out["skipped"] += 1
             continue
         if (exc is None) != (pred["exc"] is None):
